@@ -13,6 +13,14 @@ FLAGS = ["-f", "-r", "-c", "-cr", "-nf", "-nr", "-t", "-tr"]          # code = i
 SPELL = {"-nf": [["-nf"], ["-n"]], "-nr": [["-nr"]], "-tr": [["-tr"], ["-rt"]]}
 NUMS = [b"1", b"1.0", b"0x1", b"1e0", b"-4", b"2.5", b"10", b"9", b"-0.5", b"0", b"-0", b"100", b"0xff", b"3", b"7.25", b"1e3", b"-1e-2", b"12345678901"]
 STRS = [b"", b"abc", b"Abc", b"ABC", b"b", b"B", b"a", b"pan", b"Pan", b"wye", b"zee", b"0XA", b"0aa", b"0xa", b"1E2", b"1e2x", b"x,y", b"y,z", b"x", b"true", b"-", b"1_000"]
+# integers beyond 2^53 that ARE exactly representable as doubles (multiples of the binade's ulp), and equal-valued floats
+BIGS = [b"9007199254740992", b"9007199254740992.0", b"9007199254740994", b"-9007199254740994", b"9223372036854774784", b"-9223372036854775808",
+        b"9.223372036854775e18", b"0x7ffffffffffffc00", b"1152921504606847232", b"1152921504606847232.0", b"-1152921504606846976", b"9007199254740996"]
+# natural order, clean domain (no digit run above 2^63-1): leading zeros, ties between distinct texts, digit/non-digit chunk clashes, empty
+NATS2 = [b"01", b"1", b"001", b"1a", b"01a", b"1b", b"a", b"a1", b"a01", b"a1b", b"a01b", b"a1c", b"a2", b"a10", b"10", b"9", b"09", b"", b"-1", b" 1", b"a-1", b"a:1",
+         b"9223372036854775807", b"9223372036854775806", b"a9223372036854775807b", b"x9y10", b"x09y9", b"x9y09", b"1.5", b"1.05", b"1.10"]
+# digit runs above 2^63-1: strconv.Atoi fails, the run is compared bytewise (recorded finding)
+NATS_OVF = [b"100000000000000000000", b"9223372036854775808", b"a100000000000000000000", b"18446744073709551616", b"00000000000000000000000000009223372036854775808"]
 NATS = [b"a1", b"a2", b"a10", b"a20", b"b1", b"b3", b"file9", b"file10", b"file100", b"x", b"y7z", b"y10z"]
 
 
@@ -53,7 +61,7 @@ def nat_less(a, b):
         if i >= len(cb):
             return False
         y = cb[i]
-        if x.isdigit() and y.isdigit():
+        if x.isdigit() and y.isdigit() and int(x) < 2 ** 63 and int(y) < 2 ** 63:       # strconv.Atoi succeeds on both
             if int(x) == int(y):
                 if i == len(ca) - 1:
                     return True
@@ -72,14 +80,40 @@ def nat_less(a, b):
 
 
 def nat_cmp(a, b):
-    """ascending natural order with empties first (what -t does)"""
+    """the DOCUMENTED natural order (oracle; not the code's): empties first; chunk lists compared lexicographically, digit
+    runs by integer value of ANY size, other chunks bytewise, a proper prefix first; texts whose chunks are all equal
+    (01 and 1) tie, so that later keys decide"""
+    import re
     if a == b:
         return 0
     if a == b"":
         return -1
     if b == b"":
         return 1
-    return -1 if nat_less(a, b) else 1
+    ca, cb = re.findall(rb"(\d+|\D+)", a), re.findall(rb"(\d+|\D+)", b)
+    for x, y in zip(ca, cb):
+        c = cmp3(int(x), int(y)) if (x.isdigit() and y.isdigit()) else cmp3(x, y)
+        if c:
+            return c
+    return cmp3(len(ca), len(cb))
+
+
+def nat_overflow(v):
+    import re
+    return any(int(x) >= 2 ** 63 for x in re.findall(rb"\d+", v))
+
+
+def natural_class(ks, inp):
+    """the recorded finding class an 'ordered by the keys' violation of a natural-order sort falls under, or 'other'"""
+    nat = [(i, k) for i, (k, c) in enumerate(ks) if c in (6, 7)]
+    vals = lambda k: [dict(r)[k] for r in inp if k in dict(r)]
+    if any(nat_overflow(v) for _, k in nat for v in vals(k)):
+        return "natural-digit-run-above-int64-compared-bytewise"
+    for i, k in nat:
+        vs = sorted(set(vals(k)))
+        if i < len(ks) - 1 and any(nat_cmp(x, y) == 0 for a, x in enumerate(vs) for y in vs[a + 1:]):
+            return "natural-ties-hide-later-keys"
+    return "other"
 
 
 def flag_cmp(code, a, b, fold_numbers=True):
@@ -186,7 +220,7 @@ def gen_sort_case(rng, nmax):
         ks.append((n, code))
     n = rng.choice([0, 1, 2, 5, 9, 14, 20, nmax]) if rng.random() < 0.6 else rng.randint(0, nmax)
     pa = rng.sample(STRS, rng.choice([3, 6, len(STRS)])) + rng.sample(NUMS, rng.choice([0, 2, 5]))
-    px = rng.sample(NUMS, rng.choice([3, 8, len(NUMS)])) + rng.sample(STRS, rng.choice([0, 1, 3]))
+    px = rng.sample(NUMS, rng.choice([3, 8, len(NUMS)])) + rng.sample(STRS, rng.choice([0, 1, 3])) + rng.sample(BIGS, rng.choice([0, 0, 3, len(BIGS)]))
     recs = []
     for i in range(n):
         r = []
@@ -209,6 +243,42 @@ def gen_sort_case(rng, nmax):
             sp = {"-nf": ["-n", "-f"], "-nr": ["-n", "-r"], "-cr": ["-c", "-r"], "-tr": rng.choice([["-t", "-r"], ["-r", "-t"]])}[f]
         args += sp + [nme.decode()]
     return ks, args, recs
+
+
+def gen_natural_case(rng):
+    """natural-order keys.  'nat': the clean domain (no digit run above 2^63-1, natural key last): the full verified checker
+    applies.  'natpair': two records, ANY texts (a two-element sort is decided by one callback result: the comparator model
+    against the code, overflowing runs included).  'natweak': inputs on which the callback is not a strict weak order
+    (recorded findings): at most 12 groups (insertion sort), the weak verified checker applies."""
+    mode = rng.random()
+    code = rng.choice([6, 7])
+    tflag = rng.choice(SPELL.get(FLAGS[code], [[FLAGS[code]]]))
+    if mode < 0.45:
+        kind, n = "nat", rng.choice([2, 3, 5, 8, 12, 16])
+        pool = rng.sample(NATS2, rng.choice([4, 8, len(NATS2)])) + rng.sample(NATS, 3)
+        lead = rng.random() < 0.4
+        ks = ([(b"a", rng.choice([0, 1, 2]))] if lead else []) + [(b"t", code)]
+        recs = [[(b"a", rng.choice([b"p", b"q", b"P"])), (b"t", rng.choice(pool)), (b"i", str(i).encode())] for i in range(n)]
+    elif mode < 0.7:
+        kind, n = "natpair", 2
+        pool = NATS2 + NATS_OVF + NATS_OVF + [b"9", b"10", b"99999999999999999999", b"a9", b"a99999999999999999999b"]
+        ks = [(b"t", code)]
+        recs = [[(b"t", rng.choice(pool)), (b"i", str(i).encode())] for i in range(n)]
+    elif mode < 0.85:
+        kind, n = "natweak", rng.choice([3, 4, 6, 9])
+        pool = [b"01", b"1", b"001", b"1a", b"01a", b"a1", b"a01", b"2", b"02"]
+        c2 = rng.choice([0, 1, 4])
+        ks = [(b"t", code), (b"b", c2)]
+        recs = [[(b"t", rng.choice(pool)), (b"b", rng.choice([b"1", b"2", b"3"] if c2 == 4 else [b"y", b"z", b"x"])), (b"i", str(i).encode())] for i in range(n)]
+    else:
+        kind, n = "natweak", rng.choice([3, 4, 6, 10])
+        pool = rng.sample(NATS_OVF, 2) + [b"9", b"10", b"1", b"2", b"99", b"a9", b"a10"]
+        ks = [(b"t", code)]
+        recs = [[(b"t", rng.choice(pool)), (b"i", str(i).encode())] for i in range(n)]
+    args = ["sort"]
+    for nme, c in ks:
+        args += (tflag if c in (6, 7) else [FLAGS[c]]) + [nme.decode()]
+    return kind, ks, args, recs
 
 
 def gen_many_groups(rng):
@@ -380,12 +450,14 @@ def term(kind, ks, inp, out):
 def run(ctx):
     ctx.cov["rule"] = ("seeded streams of 0..24 records with 1..3 sort keys drawn from 8 flag kinds (all spellings incl. the split -n -f / -c -r / -t -r forms), "
                        "values: ints, floats, hex, exponent forms, numerically-equal-textually-different (1, 1.0, 0x1, 1e0), empties, mixed-case strings, values with commas, "
+                       "integers beyond 2^53 that are exactly representable as doubles and equal-valued floats, natural-order keys (leading zeros, ties between distinct texts, digit/non-digit chunk clashes, "
+                       "digit runs above 2^63-1; two-record sorts = the comparator model against the code; full checker on the clean domain, weak adjacent-pair checker elsewhere), "
                        "missing keys, > 12 distinct equal-comparing groups (verb cases with context NR values that are not the arrival index); DSL sort(array | map, flags | user "
                        "comparator whose results are fractions in (-1,1), -1/0/1 or huge magnitudes: a-b, (a-b)/10, (a-b)*1e6, (a<=>b)/4 ...), sort_collection; top -a; sort-within-records. The verified Coq checker is run on the implementation's "
                        "output; a case is non-trivial when (flags, input) is distinct")
     ctx.cov["trusted_base"] = ["Coq 8.16.1 kernel + vm_compute", "no axioms (Print Assumptions: closed under the global context)",
                                "type inference: the C06 model (tied by the C06 check) instantiated with digit tables regenerated from /repo",
-                               "github.com/facette/natsort modelled (chunks of digits / non-digits), tied by correspondence only",
+                               "github.com/facette/natsort modelled exactly (regexp chunking, strconv.Atoi range error, chunk-count tie break), tied by correspondence (two-record sorts on arbitrary texts)",
                                "implrun verbs driver + python harness"]
     ctx.assumptions = ["strings.ToLower modelled on ASCII", "sort.Slice is not modelled: its output is checked"]
     c06.gen_tables(ctx)
@@ -394,6 +466,7 @@ def run(ctx):
     rng = ctx.rng
     nsort = int((700 if ctx.tier == "quick" else 20000) * SCALE)
     ngroups = int((60 if ctx.tier == "quick" else 1000) * SCALE)
+    nnat = int((160 if ctx.tier == "quick" else 5000) * SCALE)
     ndsl = int((150 if ctx.tier == "quick" else 4000) * SCALE)
     nswr = int((80 if ctx.tier == "quick" else 2000) * SCALE)
     cases = []
@@ -407,6 +480,10 @@ def run(ctx):
         ks, args, recs = gen_many_groups(rng)
         cases.append(("groups", ks, args, recs))
         ctx.dist("sort:>12-equal-groups")
+    for _ in range(nnat):
+        kind, ks, args, recs = gen_natural_case(rng)
+        cases.append((kind, ks, args, recs))
+        ctx.dist("sort-natural:" + kind)
     for _ in range(ndsl):
         ks, args, recs = gen_dsl_case(rng)
         cases.append(("dsl", ks, args, recs))
@@ -425,7 +502,7 @@ def run(ctx):
         ctx.dist("sort-within-records")
     with ctx.timed("impl"):
         # verbs (not the DSL programs, which index by NR themselves) also get records whose context NR is not the arrival index
-        obs = c11.run_verbs(ctx, [(c[2], c[3], c11.gen_nrs(rng, len(c[3])) if c[0] in ("sort", "groups", "top", "swr") else None) for c in cases])
+        obs = c11.run_verbs(ctx, [(c[2], c[3], c11.gen_nrs(rng, len(c[3])) if c[0] in ("sort", "groups", "top", "swr", "nat", "natpair", "natweak") else None) for c in cases])
     terms, meta, oracle_bad, stable_terms, stable_meta = [], [], [], [], []
     for (kind, ks, args, inp), (st, out, err) in zip(cases, obs):
         ctx.count((kind, args, inp))
@@ -451,7 +528,24 @@ def run(ctx):
                 oracle_bad.append(dict(base, law="sort of a map returns one map", **{"class": "other"}))
                 continue
             inp, out = map_entries(inp[0]), map_entries(out[0])
-        terms.append(term(3 if kind in ("dsl", "map") else 0, ks, inp, out)); meta.append((kind, ks, args, inp, out))
+        if kind == "natweak":
+            # the callback is not a strict weak order on these inputs: the weak verified checker must accept; what the documented
+            # natural order demands beyond that is reported under the recorded finding classes
+            terms.append(term(5, ks, inp, out)); meta.append((kind, ks, args, inp, out))
+            v = oracle(ks, inp, out) or ((lambda sv: sv and ("the sort is stable: groups that compare equal keep their first-appearance order", sv))(stable_oracle(ks, inp, out)))
+            if v:
+                cls = natural_class(ks, inp) if v[0] in ("ordered by the keys in precedence order", "the sort is stable: groups that compare equal keep their first-appearance order") else "other"
+                oracle_bad.append(dict(base, law=v[0] + " (documented natural order)", pair=v[1], **{"class": cls}))
+            continue
+        ngroups_ = len({tuple(dict(r).get(k) for k, _ in ks) for r in inp if all(k in dict(r) for k, _ in ks)})
+        # at most 20 groups: sort.SliceStable is insertion sort, the verb model predicts the output exactly (kind 6)
+        terms.append(term(3 if kind in ("dsl", "map") else 6 if ngroups_ <= 20 else 0, ks, inp, out)); meta.append((kind, ks, args, inp, out))
+        if kind == "natpair":
+            if sorted(map(tuple, out)) != sorted(map(tuple, inp)):
+                oracle_bad.append(dict(base, law="output is a permutation of the input, records unchanged", **{"class": "other"}))
+            elif oracle(ks, inp, out):
+                oracle_bad.append(dict(base, law="ordered by the keys in precedence order (documented natural order)", **{"class": natural_class(ks, inp)}))
+            continue
         v = oracle(ks, inp, out, verb=kind not in ("dsl", "map"))
         if v:
             cls = "other"
@@ -460,7 +554,7 @@ def run(ctx):
             elif kind not in ("dsl", "map") and oracle(ks, inp, out, fold_numbers=False) is None:
                 cls = "sort-c-does-not-fold-number-like-text"
             oracle_bad.append(dict(base, law=v[0], pair=v[1], **{"class": cls}))
-        if kind in ("sort", "groups") and not v:
+        if kind in ("sort", "groups", "nat") and not v:
             sv = stable_oracle(ks, inp, out)
             if sv:
                 # repaired in /repo (4e85fa106, sort.SliceStable): a recurrence is a plain violation
@@ -488,7 +582,12 @@ def run(ctx):
     for i in bad[:60]:
         kind, ks, args, inp, out = meta[i]
         base = {"argv": ["mlr"] + c11.IOFLAGS + args, "input": c11.show(inp), "observed": c11.show(out)}
-        v = (top_oracle(ks, inp, out) if kind == "top" else (oracle(ks, inp, out, verb=kind not in ("dsl", "map")) or (kind in ("sort", "groups") and stable_oracle(ks, inp, out)))) if kind != "swr" else None
+        if kind in ("natweak", "natpair"):
+            # nothing excuses a rejection by the weak checker, nor by the full checker on two records (one callback result decides)
+            reported += 1 if ctx.violation(dict(base, broken="C09.Harness.chk (%s): mlr's output is not adjacent-pair ordered under the modelled natural comparator / not a grouped permutation" % kind,
+                                                **{"class": "other"})) else 0
+            continue
+        v = (top_oracle(ks, inp, out) if kind == "top" else (oracle(ks, inp, out, verb=kind not in ("dsl", "map")) or (kind in ("sort", "groups", "nat") and stable_oracle(ks, inp, out)))) if kind != "swr" else None
         if v:
             continue        # reported below with its class
         reported += 1 if ctx.violation(dict(base, broken="C09.Harness.chk: the verified checker rejects mlr's output (python oracle accepts it)"), found_input=False) else 0
@@ -539,6 +638,17 @@ def fixed_probes(ctx, oracle_bad):
     probe(["sort", "-c", "y"], ["y:1E2", "y:1e0"], ["y:1e0", "y:1E2"], "ordered by the keys in precedence order (case-folded)", "sort-c-does-not-fold-number-like-text")
     probe(["sort", "-f", "a", "-f", "b"], ["a:x,y;b:z;i:0", "a:x;b:zz;i:1", "a:x;b:y,z;i:2"], ["a:x;b:y,z;i:2", "a:x;b:zz;i:1", "a:x,y;b:z;i:0"],
           "ordered by the keys in precedence order", "grouping-key-comma-collision")
+    # natural order: the two recorded finding classes (while they reproduce), each with its 3-record witness
+    probe(["sort", "-t", "a"], ["a:9", "a:100000000000000000000", "a:10"], ["a:9", "a:10", "a:100000000000000000000"],
+          "ordered by the keys in precedence order (natural: digit runs by value)", "natural-digit-run-above-int64-compared-bytewise")
+    probe(["sort", "-t", "a", "-f", "b"], ["a:1;b:z", "a:01;b:z", "a:1;b:y"], ["a:1;b:y", "a:1;b:z", "a:01;b:z"],
+          "ordered by the keys in precedence order (records with the same first key are ordered by the second)", "natural-ties-hide-later-keys")
+    # observation (not a finding: 2^53+1 is not exactly representable, outside the property's domain): the witness of
+    # C09_numeric_total_preorder_all_int64_refuted makes sort -nf order-dependent on the real binary
+    wit = [[(b"x", v)] for v in (b"9007199254740993", b"9007199254740992.0", b"9007199254740992")]
+    st, out, err = c11.run_verbs(ctx, [(["sort", "-nf", "x"], wit)])[0]
+    ctx.count(("numeric-witness-beyond-2^53",))
+    ctx.cov.setdefault("observations", {})["sort -nf on 2^53+1, 2^53.0, 2^53 (input order)"] = c11.show(out)
     # user comparators returning fractions / large magnitudes (contract: any negative, zero or positive number)
     for pi, (body, vals, want) in enumerate((("a - b", ["0.5", "0.25", "0.9", "0.1", "0.75", "0.3"], ["0.1", "0.25", "0.3", "0.5", "0.75", "0.9"]),
                              ("b - a", ["0.5", "0.25", "0.9", "0.1", "0.75", "0.3"], ["0.9", "0.75", "0.5", "0.3", "0.25", "0.1"]),
